@@ -169,6 +169,12 @@ def rulesets(tier):
                     types_l, base_l = R.ref_loaded(dk, sb, sc)
                     if base_l:
                         out.append(('terminal set %d, structure list %d, skip_brute=%s all_lower=%s' % (ti, gi, sb, sc), types_l, base_l, (dk, sb, sc)))
+    # a structure with three alpha runs, loaded from disk (a capitalisation transition behind every run)
+    # (the number of walks grows with the power of the number of transitions: one word, two masks, three runs; longer structures are C14's)
+    many = dict(D.TERMINALS[0])
+    many.update(A={1: [('a', 1.0)]}, C={1: [('L', .5), ('U', .5)]}, D={1: [('1', 1.0)]}, grammar=[('A1A1A1', .7), ('A1D1', .3)], prince=D.PRINCE)
+    types_l, base_l = R.ref_loaded(many, False, False)
+    out.append(('three alpha runs loaded from disk', types_l, base_l, (many, False, False)))
     out.append(('renormalised (skip_brute style)', {'D1': t['D1'], 'O1': t['O1']}, [(.3 / .7, ['D1']), (.25 / .7, ['O1']), (.15 / .7, ['D1', 'O1'])]))
     return out
 
